@@ -9,6 +9,9 @@ ap.add_argument("prop"); ap.add_argument("mdir"); ap.add_argument("sid")
 ap.add_argument("--patch"); ap.add_argument("--checks"); ap.add_argument("--demo-args", default=""); ap.add_argument("--crate"); ap.add_argument("--worktree", default="/tmp/mut/confirm"); ap.add_argument("--phase", default="both", choices=["both", "confirm", "check"])
 a = ap.parse_args()
 W = a.worktree
+# a lane (tools/lane.sh) = an isolated copy of the tree under test and of /verif; default: /repo and /verif themselves
+REPO = os.environ.get("LANE_REPO", "/repo")
+VERIF_DIR = os.environ.get("LANE_VERIF", "/verif")
 
 
 def sh(cmd, cwd=W, timeout=1800):
@@ -77,16 +80,16 @@ checks = (a.checks.split(",") if a.checks else [a.prop])
 res = {}
 rc = 1
 if a.phase != "confirm" and confirmed:
-    rc, out = sh("git apply %s" % patch, cwd="/repo")
+    rc, out = sh("git apply %s" % patch, cwd=REPO)
 if rc == 0:
     try:
         for c in checks:
             t0 = time.time()
-            r = subprocess.run(["python3", "/verif/tools/verif.py", "check", c, "--tier", "quick"], cwd="/verif", stdout=subprocess.PIPE, stderr=subprocess.PIPE, text=True, timeout=3600)
+            r = subprocess.run(["python3", VERIF_DIR + "/tools/verif.py", "check", c, "--tier", "quick"], cwd=VERIF_DIR, stdout=subprocess.PIPE, stderr=subprocess.PIPE, text=True, timeout=3600)
             first = [l for l in r.stderr.split("\n") if l.startswith("  -> ")][:1]
             res[c] = {"exit": r.returncode, "violations": r.stdout.count("VIOLATION property="), "first": (first[0][5:305] if first else ""), "wall_s": round(time.time() - t0)}
     finally:
-        sh("git checkout -q -- .", cwd="/repo")
+        sh("git checkout -q -- .", cwd=REPO)
 meta["checks_quick"] = res
 meta["detected_by"] = [c for c, v in res.items() if v["exit"] == 1]
 m = re.search(r"(?is)(needs|manifest|trigger)[^\n]*\n?[^\n]*", notes)
